@@ -1484,4 +1484,65 @@ theorem specToks_sim (reg : SReg) : ∀ (fuel : Nat) (t : Tmpl),
 
 end Sim
 
+/-! ### grammar templates; decidable sufficient check for `BF` -/
+
+/-- a template of the documented grammar: blocks are not nested (bodies hold inline constructs only), and what the
+    template itself writes as a default or as an include name contains no `{` -/
+def Grammar (t : Tmpl) : Prop := (∀ s ∈ t, s.wf = true) ∧ (∀ s ∈ t, s.clean)
+
+/-- every registered template is a grammar template -/
+def GrammarReg (reg : SReg) : Prop := ∀ n b, lookup n reg = some b → Grammar b
+
+theorem GrammarReg.split {reg : SReg} (h : GrammarReg reg) :
+    ∀ n b, lookup n reg = some b → (∀ s ∈ b, s.wf = true) ∧ ∀ s ∈ b, s.clean := h
+
+def noLBb (s : Str) : Bool := s.all (· != 123)
+
+theorem NoLB_of_bool {s : Str} (h : noLBb s = true) : NoLB s := by
+  intro hm
+  have := List.all_eq_true.mp h 123 hm
+  simp at this
+
+/-- every value, item and field of the context is free of `{` (decidable check) -/
+def ctxOK (ctx : Ctx) : Bool :=
+  ctx.all fun p => noLBb p.2.text &&
+    (p.2.items.getD []).all fun it => noLBb it.text && it.fields.all fun f => noLBb f.2
+
+theorem lookup_mem {α : Type} (n : Str) (l : List (Str × α)) (v : α) (h : lookup n l = some v) : ∃ k, (k, v) ∈ l := by
+  induction l with
+  | nil => simp [lookup] at h
+  | cons p l ih =>
+    simp only [lookup] at h
+    split at h
+    · cases h; exact ⟨p.1, by simp⟩
+    · obtain ⟨k, hk⟩ := ih h; exact ⟨k, by simp [hk]⟩
+
+theorem BF_of_ok (cfg : Cfg) (ctx : Ctx) (h : ctxOK ctx = true) (hf : ∀ f n r, cfg.applyF f n = .ok r → NoLB r)
+    (hp : NoLB cfg.markerPre) (hs : NoLB cfg.markerSuf) : BF cfg ctx := by
+  have hall := List.all_eq_true.mp h
+  refine ⟨?_, ?_, hf, ?_⟩
+  · intro n
+    unfold textOf
+    cases hl : lookup n ctx with
+    | none => exact NoLB_nil
+    | some v =>
+      obtain ⟨k, hk⟩ := lookup_mem n ctx v hl
+      have := hall _ hk
+      simp only [Bool.and_eq_true] at this
+      exact NoLB_of_bool this.1
+  · intro n v its hl hi it hit
+    obtain ⟨k, hk⟩ := lookup_mem n ctx v hl
+    have := hall _ hk
+    simp only [Bool.and_eq_true, hi, Option.getD_some] at this
+    have h2 := List.all_eq_true.mp this.2 it hit
+    simp only [Bool.and_eq_true] at h2
+    exact ⟨NoLB_of_bool h2.1, fun p hp' => NoLB_of_bool (List.all_eq_true.mp h2.2 p hp')⟩
+  · intro n hn
+    intro hm
+    simp only [List.mem_append] at hm
+    rcases hm with (hm | hm) | hm
+    · exact hp hm
+    · exact hn hm
+    · exact hs hm
+
 end Operon.Tmpl
